@@ -867,6 +867,7 @@ type Explorer struct {
 	HarnessErr bool
 	OnExec     func(r *Result) // called for every counted execution
 	StopOnViol bool
+	Beat       *int64 // optional progress counter (incremented per execution, atomically by the caller's convention)
 	pointBuf   []Point
 	curBound   int
 }
@@ -878,6 +879,9 @@ func NewExplorer(t *testing.T, o Opts, s Scenario) *Explorer {
 
 // RunOne executes one choice sequence (prefix, then default choices).
 func (e *Explorer) RunOne(prefix []int, dupIdx int, dupSeen []int) *Result {
+	if e.Beat != nil {
+		*e.Beat++
+	}
 	if e.pointBuf == nil {
 		e.pointBuf = make([]Point, e.Opts.MaxPoints)
 	}
